@@ -42,7 +42,8 @@ ALL = ITER_TOOLS + AGG_TOOLS
 def cases(draw, name, tier):
     case = draw(base_case(name, max_len=5 if tier == "quick" else 7, max_src=3))
     case["close"] = False
-    if name in ("sum", "accumulate", "reduce", "list", "min", "max", "sorted") and draw(st.integers(0, 2)) == 0:
+    if name in ("sum", "accumulate", "reduce", "list", "min", "max", "sorted") and case["srcs"] \
+            and draw(st.integers(0, 2)) == 0:
         # the baseline is the library itself, so inexact floats / str are fine here
         kind = draw(st.sampled_from(["floats", "strs"]))
         pool = ([["f", x] for x in (0.1, 0.2, 0.3, 0.7, 1e16, -1e16, 1.0, 1e-9)] if kind == "floats"
